@@ -23,6 +23,8 @@ P = {
          'the size of the great-circle excess is measured, not proved; shapely stubbed (polygon gridding untouched); numpy searchsorted/sort re-modelled'),
  'C05': ('Grid', 'Lean theorems over ℝ (each piece lies in one cell, path order, share = length share, altitude/time/state from the start point, untouched cells get nothing, output lengths match) on the same grid model + correspondence + parametric and dense-sampling oracles on the implementation output',
          'completeness direction (every entered cell reported) is checked by the oracles, not stated as a theorem; float ties at grid corners canonicalised'),
+ 'C06': ('PerfTable', 'Lean model of the table-based performance model (validation, sub-tables, 1-D/2-D linear interpolation with bounds rejection, min/max, the lazy interpolator cache over call histories, PTF unit conversions and build_performance_table); theorems: nodes reproduced exactly (also in metres, using the regenerated unit constants: FL_TO_METERS·METERS_TO_FL = 1 re-proved on every run), bounded by corner values, ContinuousOn in level and mass, depends only on (altitude, mass, phase) for all call histories, outside rejected, min/max = extremes, incomplete grid refused, PTF rows reproduced; correspondence on generated tables, query states and rendered PTF text (bit-identical doubles)',
+         'the PTF regex parser is covered by correspondence only; scipy interpn re-modelled; one open finding (per-phase mass count checked lazily) accepted in as-is or intended form'),
  'C07': ('Store', 'refinement proof: for every op history the store state machine (sessions, next index, LRU cache with reload, in-memory no-eviction flag) produces exactly the outputs of an append-only list specification (commuting diagram + inductive invariant over all reachable states) + correspondence of model outputs and cache key sets with a real TrajectoryStore after every op',
          'netCDF4/HDF5 abstracted as a list along the trajectory dimension; cachetools.LRUCache re-modelled; payload contents opaque (C03); negative indices outside the property'),
  'C08': ('Store+Merge', 'the same refinement (get_flight = dictionary lookup for every history incl. lookups before sync, append sessions, in-memory stores) + theorem that stable sort + bisect finds the first trajectory with the id + merged index with per-store offsets = dictionary over the concatenation; correspondence on identified stores and merged stores',
@@ -45,7 +47,6 @@ P = {
          'switch points finer than a source line not exhibited; CPython threading.Lock trusted'),
 }
 PENDING = {
- 'C06': 'performance table model still under construction in this session; not yet claimed',
 }
 import sys
 done = [p for p in P if (ROOT / 'harness' / f'{p.lower()}.py').exists() and (ROOT / 'lean' / 'AeicProofs' / 'Properties' / f'{p}.lean').exists()]
